@@ -24,14 +24,16 @@ def run(ctx):
     behs = ac.dedupe(ac.tlc_behaviours(ctx, 'C13', CALLS, 2 if tier == 'quick' else 3,
                                        simulate=(250, 4) if tier == 'quick' else (3000, 6),
                                        extra=['FewFlags'] if tier == 'quick' else []))
-    cy = ac.tlc_behaviours_cy(ctx, 6, plain=(tier == 'quick'))
+    cy = ac.tlc_behaviours_cy(ctx, 6, plain=True)
+    if tier == 'thorough':       # vectorised / decorated compiles of the YAML circuit to depth 5
+        cy = ac.dedupe(cy + ac.tlc_behaviours_cy(ctx, 5, plain=False))
     ctx.notes['yaml_circuit_behaviours'] = len(cy)
     targeted = list(cy)
     if tier == 'thorough':       # a circuit and its derivative (quick tier: C07)
-        targeted += ac.tlc_behaviours_pair(ctx, 5)
+        targeted += ac.tlc_behaviours_pair(ctx, 4)
     ctx.notes['deviations_detected_by'] = {d: ac.vacuity(ctx, CALLS, d) for d in ('OpCacheKeyedByName', 'NodeCacheSurvives', 'StateStash')}
     ctx.notes['deviations_detected_by'].update({d: ac.vacuity(ctx, ac.CY_CALLS, d, maxlen=4) for d in ('TemplateCacheByPath', 'ClearSkipsWhenNoIR')})
-    ac.judge_all(ctx, behs, 'compiled model after a history of API calls', cap=1800 if ctx.tier == "quick" else 20000, always=targeted)
+    ac.judge_all(ctx, behs, 'compiled model after a history of API calls', cap=1800 if ctx.tier == "quick" else 8000, always=targeted)
     ac.pinned_d09(ctx)
     for b in behs[len(behs) // 2: len(behs) // 2 + 2]:
         ctx.sample(dict(calls=b['calls'], expected_units=b['expM'], dev=b['dev']))
